@@ -16,7 +16,7 @@ from common import *
 from persist_common import *
 import extract_c05
 import c05 as C05
-from c05 import Search, Rec, replay_events, forked, persisted_paths, uses_tree, translator_obligations
+from c05 import Search, Rec, replay_events, forked, persisted_paths, uses_tree, translator_obligations, prove_with_gen
 
 F5 = "F5:var_config-sim-pointer-memcmp"
 K_PJH = "C05-N3:whfast-p_jh-uninitialised-bytes-compared"
@@ -391,9 +391,7 @@ def correspondence(c, exe, rb, info, R, cfgs, rng):
 def run(c):
     d = build()
     rb = use_scratch_rebound(d)
-    info = extract_c05.extract(d, REPO)
-    translator_obligations(c, info)
-    ok = c.prove(["RV.Props.C17"])
+    info, ok = prove_with_gen(c, d, ["RV.Props.C17"])
     exe = lean_exe("drv_c05")
     R = Real(rb, info)
     add_raw_view(R)
